@@ -106,12 +106,20 @@ type StoreWorld struct {
 	dir    string
 	dbPath string
 	closeFn func() error
+	inner  queue.Store // the unwrapped store (verif exports)
 	// when set, every violation is kept; otherwise the world stops at the first
 	StopAtFirst bool
 	step int
 	loc  string
 	last string
 	stepViolations int
+	// fault / crash support (W-crash)
+	Disk        *Disk
+	assume      func(m *Model) // applies the operation in flight "as if it succeeded"
+	alt         *Model         // variant in which an in-doubt operation took effect
+	faultInStep bool           // an injected (non-crash) disk fault fired during this step
+	phase       string         // "op" while the main store call runs, "observe" afterwards
+	doubtful    bool
 	nextID, nextPayload int
 	batchFirstID string
 }
@@ -263,19 +271,43 @@ func (w *StoreWorld) add(vs []Violation) {
 
 func (w *StoreWorld) observe(opDesc string, refused bool) {
 	now := w.Clock.Peek()
+	w.phase = "observe"
 	resp, err := w.Store.ListMessages(queue.MessageListRequest{Order: queue.MessageOrderAsc, Limit: 1000, IncludePayload: true, IncludeHeaders: true, IncludeTrace: true})
 	if err != nil {
 		w.add([]Violation{viol("C02.list.error", "C02", "ListMessages failed after %s: %v", opDesc, err)})
 		return
 	}
-	before := len(w.Model.Msgs)
-	vs := w.Model.CompareListing(now, opDesc, resp.Items)
-	if refused {
-		vs = tagRefusal(vs)
+	if w.alt != nil {
+		// an operation is in doubt (its answer was lost in a crash, or it failed
+		// after an injected disk fault): it either took effect completely or
+		// not at all. Judge the listing against both pictures.
+		a, b := w.Model.Clone(), w.alt
+		w.alt = nil
+		va := a.CompareListing(now, opDesc, resp.Items)
+		vb := b.CompareListing(now, opDesc, resp.Items)
+		switch {
+		case len(va) == 0:
+			w.Model = a
+			w.Res.probe("indoubt.notapplied")
+		case len(vb) == 0:
+			w.Model = b
+			w.Res.probe("indoubt.applied")
+		default:
+			w.Model = a
+			for i := range va {
+				va[i].Detail += " [operation in doubt; neither 'took effect' nor 'did not' explains the listing]"
+			}
+			w.add(va)
+		}
+	} else {
+		vs := w.Model.CompareListing(now, opDesc, resp.Items)
+		if refused {
+			vs = tagRefusal(vs)
+		}
+		w.add(vs)
 	}
-	w.add(vs)
 	// learn ids adopted for anonymous enqueues
-	if len(w.Model.Msgs) != before || true {
+	{
 		known := map[string]bool{}
 		for _, id := range w.ids {
 			known[id] = true
@@ -328,6 +360,20 @@ func (w *StoreWorld) nameID(id string) string {
 	return w.names.name("M", t)
 }
 
+// settle applies the outcome of the main store call to the model: normally the
+// observed result is checked and applied; if the call failed after an injected
+// disk fault it is in doubt (it may or may not have taken effect).
+func (w *StoreWorld) settle(err error, check func() []Violation) {
+	if err != nil && w.faultInStep && w.assume != nil {
+		w.alt = w.Model.Clone()
+		w.assume(w.alt)
+		w.doubtful = true
+		w.Res.probe("indoubt.faulted_op")
+		return
+	}
+	w.add(check())
+}
+
 // Exec runs one step against store and model.
 func (w *StoreWorld) Exec(s Step) {
 	w.step++
@@ -335,6 +381,7 @@ func (w *StoreWorld) Exec(s Step) {
 	r := w.Res
 	r.Ops++
 	w.loc = w.Cfg.Backend + "/" + s.Op
+	w.assume, w.phase, w.doubtful = nil, "op", false
 	switch s.Op {
 	case "advance":
 		w.Clock.Advance(s.D)
@@ -342,17 +389,18 @@ func (w *StoreWorld) Exec(s Step) {
 		return
 	case "enqueue":
 		env := w.env(now, *s.Env)
+		w.assume = func(m *Model) { m.Enqueue(now, []queue.Envelope{env}, false, 0, nil) }
 		err := w.Store.Enqueue(env)
 		w.loc = fmt.Sprintf("%s/enqueue/%s/%s", w.Cfg.Backend, w.Model.Cfg.DropPolicy, errClass(err))
 		if w.Model.Reused[env.ID] {
 			w.loc += "/reused-id"
 		}
 		w.sum("enqueue id=%s route=%s target=%s len=%d -> %s", w.nameID(env.ID), env.Route, env.Target, len(env.Payload), errShort(err))
-		w.add(w.Model.Enqueue(now, []queue.Envelope{env}, false, 0, err))
+		w.settle(err, func() []Violation { return w.Model.Enqueue(now, []queue.Envelope{env}, false, 0, err) })
 		if err != nil {
 			r.probe("enqueue.refused." + errClass(err))
 		}
-		w.observe("enqueue", err != nil)
+		w.observe("enqueue", err != nil && !w.doubtful)
 	case "enqueue_batch":
 		be, ok := w.Store.(queue.BatchEnqueuer)
 		if !ok {
@@ -367,6 +415,7 @@ func (w *StoreWorld) Exec(s Step) {
 				w.batchFirstID = envs[0].ID
 			}
 		}
+		w.assume = func(m *Model) { m.Enqueue(now, envs, true, len(envs), nil) }
 		n, err := be.EnqueueBatch(envs)
 		w.loc = fmt.Sprintf("%s/enqueue_batch/%s/%s", w.Cfg.Backend, w.Model.Cfg.DropPolicy, errClass(err))
 		for _, e := range envs {
@@ -376,13 +425,14 @@ func (w *StoreWorld) Exec(s Step) {
 			}
 		}
 		w.sum("enqueue_batch n=%d -> %d %s", len(envs), n, errShort(err))
-		w.add(w.Model.Enqueue(now, envs, true, n, err))
+		w.settle(err, func() []Violation { return w.Model.Enqueue(now, envs, true, n, err) })
 		if err != nil {
 			r.probe("enqueue_batch.refused." + errClass(err))
 		}
-		w.observe("enqueue_batch", err != nil)
+		w.observe("enqueue_batch", err != nil && !w.doubtful)
 	case "dequeue":
 		req := queue.DequeueRequest{Route: s.Route, Target: s.Target, Batch: s.Batch, LeaseTTL: s.TTL}
+		w.assume = func(m *Model) { m.DoubtDequeue(now, req) }
 		resp, err := w.Store.Dequeue(req)
 		var got []string
 		for _, it := range resp.Items {
@@ -397,7 +447,7 @@ func (w *StoreWorld) Exec(s Step) {
 		}
 		sort.Strings(got)
 		w.sum("dequeue route=%q target=%q batch=%d ttl=%s -> %v %s", s.Route, s.Target, s.Batch, s.TTL, got, errShort(err))
-		w.add(w.Model.Dequeue(now, req, resp, err))
+		w.settle(err, func() []Violation { return w.Model.Dequeue(now, req, resp, err) })
 		// remember the leases in a backend-independent order (by message name)
 		byName := append([]queue.Envelope(nil), resp.Items...)
 		sort.SliceStable(byName, func(i, j int) bool { return w.nameID(byName[i].ID) < w.nameID(byName[j].ID) })
@@ -419,21 +469,22 @@ func (w *StoreWorld) Exec(s Step) {
 			id = " " + id + "\t"
 		}
 		var err error
-		var op leaseOp
+		op := map[string]leaseOp{"ack": opAck, "nack": opNack, "extend": opExtend, "dead": opDead}[s.Op]
+		w.assume = func(m *Model) { m.applyLease(now, op, strings.TrimSpace(id), s.Delay, s.Reason) }
 		switch s.Op {
 		case "ack":
-			op, err = opAck, w.Store.Ack(id)
+			err = w.Store.Ack(id)
 		case "nack":
-			op, err = opNack, w.Store.Nack(id, s.Delay)
+			err = w.Store.Nack(id, s.Delay)
 		case "extend":
-			op, err = opExtend, w.Store.Extend(id, s.Delay)
+			err = w.Store.Extend(id, s.Delay)
 		case "dead":
-			op, err = opDead, w.Store.MarkDead(id, s.Reason)
+			err = w.Store.MarkDead(id, s.Reason)
 		}
 		w.sum("%s %s d=%s -> %s", s.Op, w.nameLease(id), s.Delay, errShort(err))
-		w.add(w.Model.LeaseSingle(now, op, id, s.Delay, s.Reason, err))
+		w.settle(err, func() []Violation { return w.Model.LeaseSingle(now, op, id, s.Delay, s.Reason, err) })
 		r.probe("lease." + s.Op + "." + strings.SplitN(errClass(err), ":", 2)[0])
-		w.observe(s.Op, err != nil)
+		w.observe(s.Op, err != nil && !w.doubtful)
 	case "ack_batch", "nack_batch", "dead_batch":
 		bs, ok := w.Store.(queue.LeaseBatchStore)
 		if !ok {
@@ -449,24 +500,26 @@ func (w *StoreWorld) Exec(s Step) {
 		}
 		var res queue.LeaseBatchResult
 		var err error
-		var op leaseOp
+		op := map[string]leaseOp{"ack_batch": opAck, "nack_batch": opNack, "dead_batch": opDead}[s.Op]
+		w.assume = func(m *Model) {
+			for _, id := range uniqueIDs(ids) {
+				m.applyLease(now, op, id, s.Delay, s.Reason)
+			}
+		}
 		switch s.Op {
 		case "ack_batch":
-			op = opAck
 			res, err = bs.AckBatch(ids)
 		case "nack_batch":
-			op = opNack
 			res, err = bs.NackBatch(ids, s.Delay)
 		case "dead_batch":
-			op = opDead
 			res, err = bs.MarkDeadBatch(ids, s.Reason)
 		}
 		w.sum("%s %v d=%s -> ok=%d conflicts=%s %s", s.Op, shown, s.Delay, res.Succeeded, fmtConf(w.names, res.Conflicts), errShort(err))
-		w.add(w.Model.LeaseBatch(now, op, ids, s.Delay, s.Reason, res, err))
+		w.settle(err, func() []Violation { return w.Model.LeaseBatch(now, op, ids, s.Delay, s.Reason, res, err) })
 		if len(res.Conflicts) > 0 {
 			r.probe("lease.batch.conflict")
 		}
-		w.observe(s.Op, err != nil)
+		w.observe(s.Op, err != nil && !w.doubtful)
 	case "cancel", "requeue", "resume", "dlq_requeue", "dlq_delete":
 		ids := make([]string, 0, len(s.IDRefs))
 		var shown []string
